@@ -94,7 +94,7 @@ func (c *Client) accept(ch receiver) error {
 	c.done.Add(1)
 	go func() {
 		defer c.done.Done()
-		verifPoint("cli.deliver.enter", c, nil)
+		verifPoint("cli.deliver.enter", c, in)
 		c.mu.Lock()
 		defer c.mu.Unlock()
 		for _, rsp := range in {
@@ -228,7 +228,7 @@ func (c *Client) send(ctx context.Context, reqs jmessages) ([]*Response, error) 
 		}
 	}
 
-	verifPoint("cli.send.enter", c, nil)
+	verifPoint("cli.send.enter", c, reqs)
 	c.mu.Lock()
 	defer c.mu.Unlock()
 	if c.err != nil {
